@@ -58,7 +58,7 @@ def plan(tier, seed):
         if cls == "offdiag_h0":
             force = dict(sizes=[int(rng.integers(1, 4)) for _ in range(int(rng.integers(2, 5)))])
         herm = True if cls in ("asymmetric_mask", "nonhermitian_symbolic") else bool(rng.random() < 0.7)
-        spec = matprob.gen_spec(rng, "quick", hermitian=herm, **force)
+        spec = matprob.gen_spec(rng, "quick", hermitian=herm, **force, units_exp=0, user_atol=0.0)
         spec["offset"] = 0
         spec["symbolic"] = False  # with free symbols sympy cannot *prove* non-Hermiticity / non-zero blocks: outside the classes
         spec["max_total"] = min(spec["max_total"], 2)
